@@ -862,7 +862,15 @@ class SsbGraphMinimizer:
                 # The edge to the label of a label jump is always the last one. For calls it is marked, because the
                 # flow levels of the two edges of a call may become equal when jumps after it are removed.
                 e["call"] = is_call and nxt_i == len(next_ops) - 1
-                if is_loop(g, g.vs[op_i], e):
+                # With calls in the script the ops that end the control flow keep an edge to the op written after them
+                # (see optimize_ending_opcodes). Nothing runs along that edge: it never closes a loop.
+                real_op = op.root if isinstance(op, SsbLabelJump) else op
+                runs_on = (
+                    real_op.op_code.name not in OPS_THAT_END_CONTROL_FLOW
+                    or rtn[op_i - 1].op_code.name in OPS_CTX
+                    or real_op.op_code.name == OP_HOLD
+                )
+                if runs_on and is_loop(g, g.vs[op_i], e):
                     e["loop"] = True
                 self._update_edge_style(e)
                 nxt_stack.insert(0, (flow_level, nxt))
